@@ -341,7 +341,7 @@ def check_routing(rep, fl, rule="R08.2"):
                     sites[m].append((b, bi, t))
     expect = {
         "on_exit": {fl.cache + "::try_update", fl.cache + "::try_remove", fl.processor + "::handle_item", "CacheCallback::on_evict", "CacheCallback::on_reject"},
-        "on_evict": {fl.processor + "::on_evict", fl.processor + "::handle_cleanup_event", fl.cleaner + "::handle_item"},
+        "on_evict": {fl.processor + "::handle_item", fl.processor + "::handle_cleanup_event", fl.cleaner + "::handle_item"},
         "on_reject": {fl.processor + "::handle_item"},
     }
     for m, lst in sorted(sites.items()):
@@ -382,7 +382,8 @@ def check_routing(rep, fl, rule="R08.2"):
             rep.check(good, rule, fl, b, "on_reject only if not added", "on_reject only for items the policy did not admit", "on_reject reachable for an admitted item: the value is both resident and handed back", loc=t["sp"])
     # processor.on_evict(item): victims found in the store
     hi = fl.proc_fn("handle_item")
-    evs = calls_to(hi, fl.processor + "::on_evict")
+    evs = calls_to(hi, "CacheCallback::on_evict")
+    pes = calls_to(hi, fl.processor + "::prepare_evict")
     ok = len(evs) == 1
     if ok:
         a = [norm(x) for x in hi.call_args(evs[0][1])]
@@ -393,10 +394,13 @@ def check_routing(rep, fl, rule="R08.2"):
         sts = [expand_state(hi, s, hist=True) for s in at.get((evs[0][0], term_idx(hi, evs[0][0])), set())]
         ok = ok and sts and all(any(x[0] == "variant" and x[2] == "Some" and val and any(is_call(c, SM + "::try_remove") for c in calls_in(x[1])) for x, val in s.lits) for s in sts)
     rep.check(ok, rule, fl, hi, "on_evict(victim found in the store)", "a victim is handed to on_evict only when store.try_remove found it, with the removed value", "victim eviction does not hand exactly the removed value to on_evict")
-    pe = facts.body(fl.processor + "::on_evict")
-    ce = calls_to(pe, "CacheCallback::on_evict")
-    ok = len(ce) == 1 and norm(pe.call_args(ce[0][1])[1]) == V(pe.local_name.get(2, "arg2")) and must_pass_through(pe, [ce[0][0]])
-    rep.check(ok, rule, fl, pe, "forwards item", "processor.on_evict forwards its item to the callback once", "processor.on_evict does not forward its item exactly once")
+    # the same item goes through prepare_evict first (metrics / life expectancy), then to the callback, once
+    ok = len(evs) == 1 and len(pes) == 1
+    if ok:
+        ea = norm(hi.expand(norm(hi.call_args(evs[0][1])[1])))
+        pa = norm(hi.expand(norm(hi.call_args(pes[0][1])[1])))
+        ok = ea == pa and block_dominates(hi, pes[0][0], evs[0][0]) and must_pass_through(hi, [evs[0][0]], from_bi=pes[0][0])
+    rep.check(ok, rule, fl, hi, "forwards item", "the evicted item goes through prepare_evict and then to callback.on_evict, once", "the evicted item is not handed to prepare_evict and callback.on_evict exactly once")
 
 
 def check_no_dup(rep, fl, rule="R08.3"):
